@@ -14,6 +14,8 @@ REQUIRED_THEOREMS = [
     'normalize_idempotent', 'walk_eq_lexical', 'path_to_reaches', 'path_for_reaches',
     'getIn_assocPath', 'updateIn_frame', 'assocPath_frame', 'getIn_deleteIn', 'deleteIn_frame',
     'assocIn_eq_assocPath', 'startsWith_iff', 'getIn_updateIn', 'walk_converse_fails',
+    'pathsToDict_dictToPaths', 'hierarchyDepth_eq_dictToPaths', 'pathsToDict_hierarchyDepth',
+    'getIn_of_mem_dictToPaths',
 ]
 ANCHORS = [
     ('vivarium/core/store.py', ['Store.add_node']),
@@ -559,13 +561,15 @@ def shrink(case):
 LEVEL_TEXT = ('Lean 4 theorems, for all trees and all paths (unbounded): walking a relative path with ".." '
               'anywhere reaches the node of its lexical normal form; path_to/path_for lead to the node; '
               'get_in reads what assoc_path/update_in wrote; delete_in removes exactly the entry; frame '
-              'lemmas for every diverging path; normalize idempotent. The model is tied to the code by a '
+              'lemmas for every diverging path; normalize idempotent; paths_to_dict rebuilds any nested dictionary '
+              '(unique keys, no empty sub-dictionary) from its dict_to_paths / hierarchy_depth enumeration, and get_in '
+              'reads every enumerated leaf. The model is tied to the code by a '
               'correspondence check of every helper and of real Store navigation (node identity).')
 LEVEL_NOTE = ('Trusted: Lean kernel; axioms ⊆ {propext, Classical.choice, Quot.sound}; the hand-written model '
               'of topology.py/store.py navigation, validated by differential runs (exhaustive over a small '
-              'family in the thorough tier). dict_to_paths/paths_to_dict/hierarchy_depth inverse laws are '
-              'checked by the oracle on the implementation, not yet proved. Process nodes on the route are '
-              'out of scope.')
+              'family in the thorough tier). The inverse law is proved in the direction dictionary -> paths -> dictionary; '
+              'the converse (a prefix-free path list survives the round trip) is checked by the oracle only. Process '
+              'nodes on the route are out of scope.')
 TECHNIQUE = 'Lean 4 proof by induction over paths + model/code correspondence (differential)'
 
 
